@@ -5,6 +5,7 @@ import Pearl.Model.Record
 import Pearl.Model.BPTreeBytes
 import Pearl.Model.BloomProto
 import Pearl.Model.FilterDriver
+import Pearl.Model.AcctScript
 /-
 Driver state around the L2 store: configuration, a lower bound of wall-clock time (sum of `wait`s),
 blob birth times (for the rotation debounce), open/closed.  Nondeterministic background events
@@ -31,6 +32,8 @@ structure DState where
   pendingEv : List Event := []
   /-- L3 at the storage level: per-blob filters and the container of the closed blobs -/
   fstate : FilterDriver.FState := {}
+  /-- L7 (C15, file part): the directory-accounting model in lock-step with the script (`Pearl/Model/AcctScript.lean`) -/
+  acct : AcctScript.AD := {}
 deriving Inhabited
 
 /-- run one message through the proved worker model (`processMsgFixed` = the loop as it is in /repo) -/
@@ -256,7 +259,7 @@ def stepL6 (d : DState) (line : String) : DState × String :=
 
 /-- `stepL6` plus the filter state: `cf` / `cfs` / `gfc` are answered by `FilterDriver.query`, every other line
     updates the filter state from the L2 stores before and after it -/
-def step (d : DState) (line : String) : DState × String :=
+def stepL3 (d : DState) (line : String) : DState × String :=
   let toks0 := (line.trimAscii.toString.splitOn " ").filter (fun t => t ≠ "")
   let toks0 := if toks0.head? == some "cancel" then toks0.drop 2 else toks0
   match toks0.filter (fun t => !t.startsWith "@") with
@@ -275,6 +278,23 @@ def step (d : DState) (line : String) : DState × String :=
     let (d', o) := stepL6 d line
     if o == "err NoStorage" || o == "err AlreadyOpen" then (d', o)
     else ({ d' with fstate := FilterDriver.apply d.fstate d.store d'.store toks0 }, o)
+
+/-- the tokens of a line as the accounting model sees them: annotations kept, a `cancel <k>` prefix stripped
+    (the operation is run to completion; a really cancelled one is announced by the comparison program with `@lost`) -/
+def acctToks (line : String) : List String :=
+  let toks0 := (line.trimAscii.toString.splitOn " ").filter (fun t => t ≠ "")
+  if toks0.head? == some "cancel" then toks0.drop 2 else toks0
+
+/-- `stepL3` plus the directory-accounting state (L7): `fcounts` is answered from `d.acct` (also after `nomodel`: the
+    accounting state follows quarantines, which the L2 store does not); every other line is answered as before and
+    steps `d.acct` by the `Acct.AOp`s it stands for (`AcctScript.track`) -/
+def step (d : DState) (line : String) : DState × String :=
+  let toks0 := acctToks line
+  match toks0.filter (fun t => !t.startsWith "@") with
+  | ["fcounts"] => (d, AcctScript.showFcounts d.acct)
+  | _ =>
+    let r := stepL3 d line
+    ({ r.1 with acct := AcctScript.track d.acct toks0 r.2 }, r.2)
 
 end Pearl.Driver
 
